@@ -28,7 +28,8 @@ def _digests(args):
     key, base, indices = args
     m = runner.get_machine(key)
     out = {}
-    for res in kernel.run_chunk(m, base, indices, 100, [], 0, 0, 600):
+    for res in kernel.run_chunk(m, base, indices, 100, [], 0, 0, 600,
+                                machine_key=key):
         out[res['index']] = (res['verdict'], res['digest'], res['steps'])
     return out
 
